@@ -910,31 +910,6 @@ func (e *Engine) numberLits(key string, root ast.Node, p *packages.Package) map[
 	e.litFPs[key] = fps
 	if base, ok := litBaseline[key]; ok && len(base) != len(fps) {
 		if m := loopMap(base, fps); m != nil {
-			// second pass: a recorded literal that found no partner by its full fingerprint (its
-			// first statement changed, e.g. a nested literal was added at its start) is matched to
-			// the next unmatched current literal with the same signature
-			sig := func(fp string) string {
-				if i := strings.Index(fp, " | "); i >= 0 {
-					return fp[:i]
-				}
-				return fp
-			}
-			used := map[int]bool{}
-			for _, b := range m {
-				used[b] = true
-			}
-			for b := 1; b <= len(base); b++ {
-				if used[b] {
-					continue
-				}
-				for c := 1; c <= len(fps); c++ {
-					if m[c] > 1000 && sig(fps[c-1]) == sig(base[b-1]) {
-						m[c] = b
-						used[b] = true
-						break
-					}
-				}
-			}
 			for i, lit := range lits {
 				out[m[i+1]] = lit
 			}
